@@ -253,6 +253,24 @@ fn multiset_diff(a: &[String], b: &[String]) -> (Vec<String>, Vec<String>) {
     (lost, extra)
 }
 
+fn census_oracle(t: &TaskCtx, oi: &Info, st: &mut Stats, f: &mut Vec<(String, String)>) {
+    *st.oracle_evals.entry("census").or_insert(0) += 1;
+    if oi.census != t.input.census {
+        let (lost, extra) = multiset_diff(&t.input.census, &oi.census);
+        let class = if !lost.is_empty() && !extra.is_empty() {
+            "comment-altered"
+        } else if !lost.is_empty() {
+            "comment-lost"
+        } else {
+            "comment-created"
+        };
+        f.push((class.into(), format!("lost {:?} extra {:?}", lost, extra)));
+    }
+    if !t.cfg.sort && t.oracles & O_NF == 0 && oi.tok != t.input.tok {
+        f.push(("code-changed".into(), format!("non-comment token sequence differs {}", first_diff(&t.input.tok, &oi.tok))));
+    }
+}
+
 /// Output-only oracles, evaluated once per distinct output of a (case, cfg).
 pub fn check_output(t: &TaskCtx, out: &str, st: &mut Stats) -> Vec<(String, String)> {
     let mut f: Vec<(String, String)> = Vec::new();
@@ -267,8 +285,12 @@ pub fn check_output(t: &TaskCtx, out: &str, st: &mut Stats) -> Vec<(String, Stri
         }
     }
     if !parse_ok {
-        // everything else is defined on parsed output only; the C01 check owns this failure
+        // everything else is defined on parsed output only; the C01 check owns this failure —
+        // except the comment census, which only needs the independent lexer
         *st.machinery.entry("deferred-to-C01(unparseable output)".into()).or_insert(0) += 1;
+        if t.oracles & O_CENSUS != 0 && oi.lex_ok {
+            census_oracle(t, &oi, st, &mut f);
+        }
         return f;
     }
     if t.oracles & O_NF != 0 && !t.cfg.sort {
@@ -283,21 +305,7 @@ pub fn check_output(t: &TaskCtx, out: &str, st: &mut Stats) -> Vec<(String, Stri
         }
     }
     if t.oracles & O_CENSUS != 0 {
-        *st.oracle_evals.entry("census").or_insert(0) += 1;
-        if oi.census != t.input.census {
-            let (lost, extra) = multiset_diff(&t.input.census, &oi.census);
-            let class = if !lost.is_empty() && !extra.is_empty() {
-                "comment-altered"
-            } else if !lost.is_empty() {
-                "comment-lost"
-            } else {
-                "comment-created"
-            };
-            f.push((class.into(), format!("lost {:?} extra {:?}", lost, extra)));
-        }
-        if !t.cfg.sort && t.oracles & O_NF == 0 && oi.tok != t.input.tok {
-            f.push(("code-changed".into(), format!("non-comment token sequence differs {}", first_diff(&t.input.tok, &oi.tok))));
-        }
+        census_oracle(t, &oi, st, &mut f);
     }
     if t.oracles & O_TREE != 0 {
         if let Some(fnf) = t.full_nf {
